@@ -5,6 +5,7 @@
      SignShrink  the signer writes a <= r bytes; the L of SignatureValue is overwritten in place,
                  the outer length is reduced and re-encoded (tlv_var.shrink_length)
      Refuse*     the documented refusals
+   (the representation in which the caller hands over the parameters - cfg.rep - plays no role in any step: LawForms)
    and the laws of NdnPackets as invariants of the emitted packet.                          *)
 EXTENDS NdnPacketsCfg
 
@@ -26,11 +27,11 @@ RefuseShrink == ph = "reserved" /\ RefusesShrink(cfg) /\ ph' = "refused" /\ UNCH
 Next == Encode \/ RefuseName \/ SignShrink \/ RefuseShrink
 Spec == Init /\ [][Next]_vars
 
-TypeOK == ph \in {"cfg", "reserved", "made", "refused"}
+TypeOK == ph \in {"cfg", "reserved", "made", "refused"} /\ RepOK(cfg)
 InvBuffer == ph = "reserved" => out.tree = Reserved(cfg) /\ WellTiled(Flat(out.tree))
-InvMade == ph = "made" => out.tree = Final(cfg) /\ Laws(cfg)
+InvMade == ph = "made" => out.tree = Final(cfg) /\ Laws(cfg) /\ LawForms(cfg)
 \* the same laws split by the property they serve
-InvC01 == ph = "made" => out.tree = Final(cfg) /\ LawOneElement(cfg) /\ LawShrink(cfg) /\ LawParseBack(cfg)
+InvC01 == ph = "made" => out.tree = Final(cfg) /\ LawOneElement(cfg) /\ LawShrink(cfg) /\ LawParseBack(cfg) /\ LawForms(cfg)
 InvC02 == ph = "made" => LawRanges(cfg) /\ LawDigestOp(cfg) /\ LawRegions(cfg) /\ LawEdits(cfg)
 InvRefused == ph = "refused" => Refuses(cfg)
 
